@@ -395,3 +395,13 @@ pub fn drive(args: &Args) -> i32 {
     }
     0
 }
+
+/// `cvh drive odsfile --in x.ods [--sheet T]`: project one sheet of an arbitrary file (debug aid)
+pub fn file(args: &Args) -> i32 {
+    let bytes = std::fs::read(args.req("in")).expect("read file");
+    match observe(bytes, args.get("sheet").unwrap_or("T"), None) {
+        Ok(o) => println!("{}", json!({"v": o.v, "f": o.f})),
+        Err(m) => println!("{}", json!({ "error": m })),
+    }
+    0
+}
